@@ -3,7 +3,7 @@ import ast
 
 from ..core.model import AnchorError, FuncInfo
 from ..core.cfg import walk_shallow, cfg_of
-from ..core.facts import U
+from ..core.facts import U, atoms_of
 from ..engine import fn_name, kwarg, stmts_in
 from ..kinds import extapi
 from . import c01, c12, c14, common
@@ -15,12 +15,12 @@ EXPLANATION = (
     "trial's bookkeeping is released (Hyperband: rung-system record removed; synchronous Hyperband and DEHB: the pending slot "
     "is reported as failed to the bracket and deleted, so the bracket does not wait forever); S4 a failed configuration is "
     "black-listed by every evaluation_failed implementation that promises no repeats, and removing its pending evaluations "
-    "leaves other trials' entries untouched (keep-filter polarity); S5 exceeding the limit ends run() after clean-up with an "
+    "leaves other trials' entries untouched (keep-filter polarity), and the exclusion list built from the state keeps every failed trial (monotone union, shared with C06-S5); S5 exceeding the limit ends run() after clean-up with an "
     "error naming the trial; S6 reporting a failure cannot itself raise on an attribute the numerical library does not have "
     "(external-API stub lookup on the failure path). NOT decided: that schedulers keep making legal decisions afterwards "
     "(needs the numeric clauses of C03-C05).")
 
-FLOOR = {"S1": 8, "S2": 3, "S3": 5, "S4": 4, "S5": 3, "S6": 3}
+FLOOR = {"S1": 8, "S2": 3, "S3": 5, "S4": 6, "S5": 3, "S6": 3}
 
 
 def s2(ctx, rep):
@@ -92,7 +92,8 @@ def s3(ctx, rep):
             for d in dl:
                 ok = ok and cm.path(cm.entry, d, deleted=rp) is None
             edge = [(n.id, s) for n in cm.nodes if n.kind == "test" for s, l in cm.succ[n.id]
-                    if isinstance(l, tuple) and l[2] is True and "_trial_to_pending_slot" in U(l[1])]
+                    if isinstance(l, tuple) and l[0] == "cond" and any(a[0] == "in" and a[3] is True and "_trial_to_pending_slot" in a[2]
+                                                                        for a in atoms_of(l[1], l[2]))]
             ok = ok and bool(edge) and all(cm.path(s, cm.exit, deleted=dl, skip_labels=("exc",)) is None and
                                            cm.path(s, cm.exit, deleted=rp, skip_labels=("exc",)) is None for _, s in edge)
         rep.put(ok, "S3", "must_follow", f"{cname}.on_trial_error: pending slot reported as failed ≺ removed from pending", m, None, "",
@@ -161,3 +162,11 @@ def run(ctx, rep, tier="quick"):
     s4(ctx, rep)
     c12.s2(ctx, rep, clause="S5")
     s6(ctx, rep)
+    # S4 (cont.): the black list the model-based searchers exclude from is pending ∪ failed ∪ observed, and the failed
+    # trials are never filtered out of it again (shared with C06-S5)
+    from . import c06
+    sub = type(rep)(rep.prop)
+    c06.s5(ctx, sub)
+    for i in sub.items:
+        i.clause = "S4"
+        rep.items.append(i)
